@@ -16,6 +16,8 @@
 (*   "multiEarlyReturn" multi-error mode returns after the security part failed             *)
 (*   "overrideByName"   a path-level parameter counts as overridden by an operation         *)
 (*                      parameter of the same name in ANY location                          *)
+(*   "bodyByMethod"     the body step is taken only under methods for which RFC 7231        *)
+(*                      defines a payload (not under get / head / delete)                   *)
 EXTENDS RequestCheck
 CONSTANT Variant
 
@@ -25,10 +27,13 @@ Absent == [absent |-> TRUE]
 PLists == {<<>>, <<P("query", "a", "int")>>, <<P("header", "a", "reqint")>>, <<P("query", "a", "strx"), P("header", "a", "int")>>}
 Values == {<<>>, <<V("query", "a", "1")>>, <<V("query", "a", "x"), V("header", "a", "1")>>}
 Cases ==
-   {[opSec |-> os, docSec |-> <<>>, accepts |-> acc, pparams |-> pp, oparams |-> op, values |-> vs, bdecl |-> bd, body |-> body,
-     multi |-> mu, exclBody |-> xb, exclQuery |-> xq] :
+   {cc \in {[opSec |-> os, docSec |-> <<>>, accepts |-> acc, pparams |-> pp, oparams |-> op, values |-> vs, bdecl |-> bd, body |-> body,
+     multi |-> mu, exclBody |-> xb, exclQuery |-> xq, method |-> m] :
+      m \in {"post", "delete"},
       os \in {Absent, [list |-> << <<"A">> >>]}, acc \in {{}, {"A"}}, pp \in PLists, op \in PLists, vs \in Values,
-      bd \in {"none", "optional", "required"}, body \in {"none", "pass", "fail"}, mu \in BOOLEAN, xb \in BOOLEAN, xq \in BOOLEAN}
+      bd \in {"none", "optional", "required"}, body \in {"none", "pass", "fail"}, mu \in BOOLEAN, xb \in BOOLEAN, xq \in BOOLEAN} :
+      \* (the outcome set only matters when there is a requirement; the payload-less method only where a body is declared)
+      ~("absent" \in DOMAIN cc.opSec /\ cc.accepts = {"A"}) /\ (cc.method = "delete" => cc.bdecl # "none")}
 
 VARIABLES c, pc, i, errs, ret
 vars == <<c, pc, i, errs, ret>>
@@ -62,7 +67,8 @@ OpParam ==
            IF (c.exclQuery /\ p.in = "query") \/ Passes(c, p) THEN Go("op", i + 1) ELSE Fail(PartName(p), "op", i + 1)
 Body ==
    /\ pc = "body" /\ UNCHANGED c
-   /\ IF Variant = "bodyPresenceFirst"
+   /\ IF Variant = "bodyByMethod" /\ c.method \in {"get", "head", "delete"} THEN Go("fin", 1)
+      ELSE IF Variant = "bodyPresenceFirst"
       THEN IF c.bdecl # "none" /\ ((c.body = "none" /\ c.bdecl = "required") \/ (~c.exclBody /\ c.body = "fail"))
            THEN Fail("body", "fin", 1) ELSE Go("fin", 1)
       ELSE IF c.bdecl # "none" /\ ~c.exclBody /\ BodyPartFails(c) THEN Fail("body", "fin", 1) ELSE Go("fin", 1)
